@@ -1,8 +1,8 @@
 """C01 â€” value-flow facts hold in every UB-free execution.
 
 Obligations
-  theorems   Cppcheck.C01.* (Props/C01.lean): calculate_sound, calculate_error_iff, infer_known_sound, infer_sound_partial
-             (+ infer_sound_counterexample: the full statement is false of the code, F20), fold_binary_sound_partial
+  theorems   Cppcheck.C01.* (Props/C01.lean): calculate_sound, calculate_error_iff, infer_sound (current code, after fix 8842d71;
+             infer_sound_counterexample / infer_prefix_sound_partial are about the pre-fix function, F20), fold_binary_sound_partial
              (+ fold_binary_unsigned_wrap_counterexample, F5), validator_sound / validator_sound_bigstep (all MiniC programs,
              all inputs, all platform records, no hypothesis), interpreter_agrees_bigstep
   C1         in-process correspondence (harness/c01.cpp vs lean/Driver/C01.lean): calculate<bigint>, calculate<int>,
@@ -26,16 +26,16 @@ RULE = ("transfer cases = (operator, operand pair) with operands from {0, Â±1, Â
         "programs = the corpus (10 finding witnesses, 8 positive programs with loops/casts/unsigned) + generated MiniC functions of the "
         "quiet fragment (docs/C01.md section 4), 20 per translation unit; a program case is non-trivial when cppcheck attached at least one "
         "Known/Impossible fact to a mapped occurrence other than a literal; gcc cross-check programs use the whole MiniC language")
-EXPLANATION = ("Proved in Lean: calculate and infer are sound on the stated domains (the full statement for infer is refuted: F20), the fact "
+EXPLANATION = ("Proved in Lean: calculate and infer are sound on the stated domains (infer: since fix 8842d71; the pre-fix function is refuted, F20), the fact "
                "validator is sound for every MiniC program, argument vector and platform record (validator_sound, no hypothesis), the "
                "interpreter equals the big-step semantics. Each reported fact the validator accepts is thereby proved for all inputs of that "
                "program; programs are sampled and the generated fragment is small (int variables, + - *, comparisons, && ||, if/else, "
-               "compound assignment, ++/--: every wider construct makes cppcheck report facts that executions contradict, see the 10 known "
+               "compound assignment, ++/--: every wider construct makes cppcheck report facts that executions contradict, see the known "
                "findings and docs/C01.md section 4), so the property is decided only there (level other). Outside the model: floats, pointers, "
                "arrays, structs, calls, globals, switch, goto, C++, symbolic facts, container/lifetime values, facts with indirect != 0, "
                "Possible values. castValue: correspondence only.")
 THEOREMS = ["Cppcheck.C01.calculate_sound", "Cppcheck.C01.calculate_error_iff", "Cppcheck.C01.infer_sound_counterexample",
-            "Cppcheck.C01.infer_known_sound", "Cppcheck.C01.infer_sound_partial", "Cppcheck.C01.fold_binary_unsigned_wrap_counterexample",
+            "Cppcheck.C01.infer_sound", "Cppcheck.C01.infer_prefix_sound_partial", "Cppcheck.C01.fold_binary_unsigned_wrap_counterexample",
             "Cppcheck.C01.fold_binary_sound_partial", "Cppcheck.C01.validator_sound", "Cppcheck.C01.validator_sound_bigstep",
             "Cppcheck.C01.interpreter_agrees_bigstep"]
 MODULES = ["Cppcheck.Props.C01"]
